@@ -97,6 +97,7 @@ def generate_record(prop, verif_seed, index):
     else:
         rec = mod.generate(rng)
     rec["property"] = prop
+    rec["tier"] = os.environ.get("GEMSIM_TIER", "quick")
     rec["sim_version"] = SIM_VERSION
     rec["run_seed"] = run_seed
     rec["run_index"] = index
@@ -170,6 +171,7 @@ def slug(s):
 
 def run_check(prop, tier, verif_seed, runs=None, workers=None, shrink=True, quiet=False):
     t0 = time.time()
+    os.environ["GEMSIM_TIER"] = tier      # scenarios widen their shape/history ranges in the thorough tier
     n_runs = runs if runs is not None else BUDGET[prop][tier]
     workers = workers or min(16, os.cpu_count() or 1)
     wall = WALL[tier]
